@@ -75,34 +75,44 @@ func runC29(c *Ctx) {
 			}
 		}
 		allowed := map[int64]bool{statusVals["VoterAgreed"]: true, statusVals["Finished"]: true, statusVals["Aborted"]: true, statusVals["Terminated"]: true}
-		// structural: for every disallowed status the chain of `Status != k` tests leads to the rejection
+		// for every status value: with the branches that the status decides resolved (comparisons of the Status field
+		// with constants, directly or inside a predicate helper it is passed to), a success exit is reachable exactly
+		// for the four withdrawable statuses
 		okStatus := len(statusVals) == 8
-		var statusIfs []*ssa.If
-		for _, i := range ssau.Ifs(w) {
-			if b, ok := i.Cond.(*ssa.BinOp); ok && b.Op == token.NEQ && ssau.IsFieldOf(ssau.Unwrap(b.X), "ProposalState", "Status") {
-				statusIfs = append(statusIfs, i)
+		syms := &Symbols{Int: func(v ssa.Value) (string, bool) {
+			if ssau.IsFieldOf(ssau.Unwrap(v), "ProposalState", "Status") {
+				return "status", true
 			}
-		}
+			return "", false
+		}}
 		seen := map[int64]bool{}
-		for _, i := range statusIfs {
-			k, _ := constVal64(i.Cond.(*ssa.BinOp).Y)
-			seen[k] = true
-			if !allowed[k] {
+		ecw := c.classifier(w, opt)
+		decided := 0
+		for _, sv := range statusVals {
+			env := Env{B: map[string]bool{}, I: map[string]int64{"status": sv}, S: map[string]string{}}
+			cut := ssau.NewCut()
+			for _, i := range ssau.Ifs(w) {
+				if !ssau.DependsOn(i.Cond, func(x ssa.Value) bool { return ssau.IsFieldOf(x, "ProposalState", "Status") }) {
+					continue
+				}
+				if val, known := syms.evalCond(i.Cond, env, 0, ""); known {
+					decided++
+					cut.AddEdge(i.Block(), ssau.Arm(i, !val))
+				}
+			}
+			r := ssau.ReachFromEntry(w, cut)
+			accepts := len(ecw.SuccessExitsIn(r, cut)) > 0
+			if accepts {
+				seen[sv] = true
+			}
+			if accepts != allowed[sv] {
 				okStatus = false
 			}
 		}
-		// all tests chained by && : the true arm of each leads to the next test or to the rejecting return
-		for _, i := range statusIfs {
-			next := ssau.Arm(i, true)
-			last := next.Instrs[len(next.Instrs)-1]
-			if _, isRet := last.(*ssa.Return); isRet {
-				continue
-			}
-			if ni, isIf := last.(*ssa.If); !isIf || !containsIf(statusIfs, ni) {
-				okStatus = false
-			}
+		if decided == 0 {
+			okStatus = false
 		}
-		c.R.Check("G-withdraw", "status is withdrawable", okStatus && len(seen) == 4, c.pos(w.Pos()), fmt.Sprintf("rejected unless Status is one of the %d withdrawable statuses (tests chained with &&, all-true arm returns the error)", len(seen)))
+		c.R.Check("G-withdraw", "status is withdrawable", okStatus && len(seen) == 4, c.pos(w.Pos()), fmt.Sprintf("a success exit is reachable for %d status values; it must be reachable exactly for VoterAgreed, Finished, Aborted and Terminated", len(seen)))
 
 		vDefault, _ := c.constVal("core/types/payload", "CRCProposalWithdrawDefault")
 		v01, _ := c.constVal("core/types/payload", "CRCProposalWithdrawVersion01")
@@ -161,6 +171,7 @@ func runC29(c *Ctx) {
 	isWithdrawn := func(v ssa.Value) bool { return ssau.IsFieldOf(ssau.Unwrap(v), "ProposalState", "WithdrawnBudgets") }
 	if f := c.fn("cr/state", "ProposalManager", "availableWithdrawalAmount"); f != nil {
 		n := 0
+		var viaCollector *ssa.Function
 		for _, b := range f.Blocks {
 			for _, in := range b.Instrs {
 				add, ok := in.(*ssa.BinOp)
@@ -168,54 +179,34 @@ func runC29(c *Ctx) {
 					continue
 				}
 				n++
+				// the sum may run over the set a collector helper returns (stages not yet withdrawn only)
+				if cols := callsToCollector(f, isWithdrawn); len(cols) > 0 && sumsOverResultOf(in, cols) {
+					viaCollector = cols[0].Call.StaticCallee()
+					c.R.Check("G-once", fmt.Sprintf("availableWithdrawalAmount|sum#%d only stages not yet withdrawn", n), true, c.posOf(in), "the sum ranges over the set returned by "+viaCollector.Name()+", which holds only stages absent from WithdrawnBudgets")
+					continue
+				}
 				c.G2("G-once", fmt.Sprintf("availableWithdrawalAmount|sum#%d only stages not yet withdrawn", n), f, in, "WithdrawnBudgets[stage] absent", lookupAbsent(isWithdrawn))
 			}
 		}
 		c.R.FloorCheck("G-once additions in availableWithdrawalAmount", n, 1)
-		c.R.Check("G-once", "availableWithdrawalAmount|ranges over WithdrawableBudgets", rangesOverMapField(f, "WithdrawableBudgets"), c.pos(f.Pos()), "the loop ranges over the proposal's WithdrawableBudgets")
+		rangesF := f
+		if viaCollector != nil {
+			rangesF = viaCollector
+		}
+		c.R.Check("G-once", "availableWithdrawalAmount|ranges over WithdrawableBudgets", rangesOverMapField(rangesF, "WithdrawableBudgets"), c.pos(f.Pos()), "the loop ranges over the proposal's WithdrawableBudgets")
 	}
 	if f := c.fn("cr/state", "ProposalManager", "proposalWithdraw"); f != nil {
-		var collect *ssa.MapUpdate
-		var mk *ssa.MakeMap
-		// the collected set: a local map filled in a loop over WithdrawableBudgets behind the absent-lookup of WithdrawnBudgets
-		for _, b := range f.Blocks {
-			for _, in := range b.Instrs {
-				u, ok := in.(*ssa.MapUpdate)
-				if !ok {
-					continue
-				}
-				m, ok := ssau.Unwrap(u.Map).(*ssa.MakeMap)
-				if !ok {
-					// captured local: load of alloc holding the MakeMap
-					if ld, isLd := ssau.Unwrap(u.Map).(*ssa.UnOp); isLd {
-						if al, isAl := ld.X.(*ssa.Alloc); isAl {
-							for _, st := range ssau.StoresInto(al) {
-								if mm, isM := st.Val.(*ssa.MakeMap); isM {
-									m = mm
-								}
-							}
-						}
-					}
-				}
-				if m == nil {
-					continue
-				}
-				// guarded by the absent lookup?
-				cut := ssau.NewCut()
-				hit := 0
-				for _, i := range ssau.Ifs(f) {
-					if mt, arm := lookupAbsent(isWithdrawn)(i); mt {
-						cut.AddEdge(i.Block(), ssau.Arm(i, arm))
-						hit++
-					}
-				}
-				if hit > 0 && !ssau.ReachFromEntry(f, cut).Instr(in) {
-					collect, mk = u, m
-				}
+		collect, mk := collectedSetIn(f, isWithdrawn)
+		rangesAll := rangesOverMapField(f, "WithdrawableBudgets")
+		if collect == nil {
+			// the collection may live in a helper that returns the collected set
+			for _, cl := range callsToCollector(f, isWithdrawn) {
+				collect, mk = collectedSetIn(cl.Call.StaticCallee(), isWithdrawn)
+				rangesAll = rangesOverMapField(cl.Call.StaticCallee(), "WithdrawableBudgets")
 			}
 		}
 		c.R.Check("G-once", "proposalWithdraw|collects only stages not yet withdrawn", collect != nil, c.pos(f.Pos()), "the set of stages being withdrawn is filled behind the absent arm of the WithdrawnBudgets lookup")
-		c.R.Check("G-once", "proposalWithdraw|ranges over WithdrawableBudgets", rangesOverMapField(f, "WithdrawableBudgets"), c.pos(f.Pos()), "the collection loop ranges over the proposal's WithdrawableBudgets")
+		c.R.Check("G-once", "proposalWithdraw|ranges over WithdrawableBudgets", rangesAll, c.pos(f.Pos()), "the collection loop ranges over the proposal's WithdrawableBudgets")
 		// do marks exactly the collected set; undo unmarks exactly it
 		for _, s := range c.appendSites("cr/state") {
 			if s.fn != f || s.do == nil || s.undo == nil {
@@ -398,6 +389,107 @@ func rangeOverLocalCopyOf(fn *ssa.Function, field string) bool {
 			return false
 		})(b.Y) {
 			return true
+		}
+	}
+	return false
+}
+
+// collectedSetIn finds in f a local map that is filled only behind the absent arm of a lookup in the map field
+// recognised by isDone (the set of stages not yet withdrawn).
+func collectedSetIn(f *ssa.Function, isDone func(ssa.Value) bool) (*ssa.MapUpdate, *ssa.MakeMap) {
+	var collect *ssa.MapUpdate
+	var mk *ssa.MakeMap
+	if f == nil {
+		return nil, nil
+	}
+	for _, b := range f.Blocks {
+		for _, in := range b.Instrs {
+			u, ok := in.(*ssa.MapUpdate)
+			if !ok {
+				continue
+			}
+			m, ok := ssau.Unwrap(u.Map).(*ssa.MakeMap)
+			if !ok {
+				// captured local: load of alloc holding the MakeMap
+				if ld, isLd := ssau.Unwrap(u.Map).(*ssa.UnOp); isLd {
+					if al, isAl := ld.X.(*ssa.Alloc); isAl {
+						for _, st := range ssau.StoresInto(al) {
+							if mm, isM := st.Val.(*ssa.MakeMap); isM {
+								m = mm
+							}
+						}
+					}
+				}
+			}
+			if m == nil {
+				continue
+			}
+			cut := ssau.NewCut()
+			hit := 0
+			for _, i := range ssau.Ifs(f) {
+				if mt, arm := lookupAbsent(isDone)(i); mt {
+					cut.AddEdge(i.Block(), ssau.Arm(i, arm))
+					hit++
+				}
+			}
+			if hit > 0 && !ssau.ReachFromEntry(f, cut).Instr(in) {
+				collect, mk = u, m
+			}
+		}
+	}
+	return collect, mk
+}
+
+// callsToCollector lists the calls in f of same-package helpers that return (on every path) a map they fill only
+// behind the absent arm of the isDone lookup.
+func callsToCollector(f *ssa.Function, isDone func(ssa.Value) bool) []*ssa.Call {
+	var out []*ssa.Call
+	for _, b := range f.Blocks {
+		for _, in := range b.Instrs {
+			cl, ok := in.(*ssa.Call)
+			if !ok {
+				continue
+			}
+			h := cl.Call.StaticCallee()
+			if h == nil || h.Pkg != f.Pkg || len(h.Blocks) == 0 || h == f {
+				continue
+			}
+			_, mk := collectedSetIn(h, isDone)
+			if mk == nil {
+				continue
+			}
+			all := true
+			for _, ret := range ssau.Returns(h) {
+				if len(ret.Results) != 1 || ssau.Unwrap(ret.Results[0]) != ssa.Value(mk) {
+					all = false
+				}
+			}
+			if all {
+				out = append(out, cl)
+			}
+		}
+	}
+	return out
+}
+
+// sumsOverResultOf: the addition sits in a loop that ranges over the result of one of the given calls and adds
+// the ranged value.
+func sumsOverResultOf(add ssa.Instruction, calls []*ssa.Call) bool {
+	for _, h := range loopHeaders(add.Block()) {
+		for _, in := range h.Instrs {
+			nx, ok := in.(*ssa.Next)
+			if !ok {
+				continue
+			}
+			rg, ok := nx.Iter.(*ssa.Range)
+			if !ok {
+				continue
+			}
+			for _, cl := range calls {
+				if ssau.Unwrap(rg.X) == ssa.Value(cl) {
+					return true
+				}
+			}
 		}
 	}
 	return false
